@@ -156,10 +156,11 @@ CLAIMED = {
        "types are invariant under matches, so a cell reached at static type `mut c` has a declared type == c. "
        "STAGES 5-6 add `for x in it body` over iterators `() -> (bool, T)`, tuple destructuring, and the operators on operands of a UNION "
        "type through the implementation's type queries: `u[i]` (index_result), `u.N` (tuple_element_at), `*u` (mut_element_type), `u(args)` "
-       "(arguments against params(), result return_type()), `u = v` (mut_assign_type). Thm/C01StU proves, for unions of any number of members, "
+       "(arguments against params(), result return_type()), `u = v` (mut_assign_type), slices of unions of indexable types, and `it $]` (collecting a "
+       "hand-written iterator). Thm/C01StU proves, for unions of any number of members, "
        "that a join-folded query answers above every member's answer and the meet-folded params() / mut_assign_type() below every member's, and "
        "that a good value of a union type is a value of one member; each union case of the outcome theorem reduces to the member's case. "
-       "Outside the fragment (structs, the built-in iterator operators, inferred `mut e`, slices and compound assignment on unions) the "
+       "Outside the fragment (structs, the built-in iterator operators - blocked by the open finding F14 -, inferred `mut e`, compound assignment on unions) the "
        "evaluator-level statement is NOT proved: for the "
        "running code it is decided by the in-crate monitor (feature `verif`), which judges the result of every executed "
        "instruction (~140k per quick run) against that instruction's own return_type() by tag and by contents, on generated "
